@@ -1,9 +1,8 @@
 #!/bin/sh
 # try_seed.sh <PROP> <patch.diff> [tier]: apply a seeded change to /repo, run the check, undo, summarise.
-# Holds build/repo.lock exclusively so that no other check observes the patched tree.
+# Holds /repo/.git/verif-repo.lock exclusively so that no other check observes the patched tree.
 P=$1; D=$(readlink -f "$2"); T=${3:-quick}
-mkdir -p /verif/build
-exec 9>/verif/build/repo.lock
+exec 9>/repo/.git/verif-repo.lock
 flock -x 9
 if [ -n "$(git -C /repo status --short --untracked-files=no)" ]; then echo "/repo is not clean"; exit 2; fi
 rm -f /verif/replays/$P-*
